@@ -24,6 +24,13 @@ def make(pid, own, proof_files, assumptions, theorem, gen, nontrivial, rule, n_q
 
     def replay(dis):
         c = dis.get('input')
+        if isinstance(c, dict) and 'config' in c and 'events' in c and 'impl_events' not in c and any(e and e[0] in ('gmsg', 'gdestroy', 'gcmd', 'gsub') for e in c['events']):
+            import gdbcheck
+            m = common.model_eval('session', [[sessioncheck.mcfg(c['config']), gdbcheck.model_events(c['events'])]], shards=1)[0]
+            r = gdbcheck.compare_case(c, m)
+            print('differences:', r)
+            print('REPRODUCED' if r and r != 'oom' else 'not reproduced on the current tree')
+            return 1 if r and r != 'oom' else 0
         if not (isinstance(c, dict) and 'config' in c and 'events' in c and 'impl_events' in c):
             # a metamorphic / direct check on /repo: the stored input and both sides are in the replay file
             print('what :', dis.get('what'))
